@@ -422,7 +422,10 @@ class _Gen:
             self.out.append(Tok(t, "", None, tag))
 
     def fresh(self, p):
+        """fresh name; lengths vary on purpose (alignment groups with members of unequal width)"""
         self.uid += 1
+        if len(p) == 1 and self.rng.random() < 0.45:
+            p = p + self.rng.choice(["_x", "_long", "_much_longer_name", "_q", "_mid_len"]) + "_"
         return "%s%d" % (p, self.uid)
 
     # ---- expressions over the readable names `rd` (all logic<W>)
@@ -660,6 +663,8 @@ class _Gen:
                     self.expr(rd, 1)
                     self.e(",", "default", ":", self.number(), ",", "}", ";")
             rd.extend(take)
+        for _ in range(r.choice([0, 1, 1, 2])):
+            self.struct_ctor(rd)
         if r.random() < 0.35:
             self.e("initial", "{", "$display", "(", self.string(), ",", r.choice(rd), ")", ";", "}")
         if r.random() < 0.3:
@@ -685,6 +690,31 @@ class _Gen:
             self.e("return", "x", "+", "1", ";", "}")
         self.e("}")
         self.mod_names.append((name, ins, outs))
+
+    def struct_ctor(self, rd):
+        """a struct with member names of unequal length and a constructor for it (the emitter
+        aligns the members of a constructor only when the constructor breaks over lines)"""
+        r = self.rng
+        st = self.fresh("St")
+        pool = ["a", "bb", "x", "much_longer_name", "mid_len", "q", "data_valid", "k0", "the_longest_member_name_here"]
+        names = r.sample(pool, r.randint(2, 5))
+        self.e("struct", st, "{")
+        for n in names:
+            self.e(n, ":", "logic", "<", "8", ">", ",")
+        self.e("}")
+        v = self.fresh("s")
+        self.e("let", "_" + v, ":", st, "=", st, "'{")
+        for i, n in enumerate(names):
+            self.e(n, ":")
+            if rd and r.random() < 0.7:
+                self.e(r.choice(rd))
+                if r.random() < 0.5:
+                    self.e(r.choice(["+", "&", "|", "^"]), r.choice(rd))
+            else:
+                self.e(self.sized() if r.random() < 0.5 else "8'h" + r.choice(["0", "7f", "ff", "a5"]))
+            if i + 1 < len(names) or r.random() < 0.5:
+                self.e(",")
+        self.e("}", ";")
 
     def package(self):
         r = self.rng
